@@ -924,6 +924,16 @@ func (ctx *RenderContext) EvaluateExpression(node Node) (interface{}, error) {
 				}
 			}
 
+			// _self.name() and the like: a macro visible under this name is what
+			// a direct call name() would run, also when a function has the same name
+			if macro, ok := ctx.GetMacro(n.name); ok {
+				if macroNode, ok := macro.(*MacroNode); ok {
+					return func(w io.Writer) error {
+						return macroNode.CallMacro(w, ctx, args...)
+					}, nil
+				}
+			}
+
 			// Fallback - try calling it like a regular function
 			if IsDebugEnabled() && debugger.level >= DebugVerbose {
 				LogVerbose("Fallback - calling '%s' as a regular function", n.name)
